@@ -508,14 +508,48 @@ Definition scalar_tok (s : string) : token :=
   | None => str_tok (txt s)
   end.
 
+(* every float inside [v] satisfies [p] *)
+Fixpoint floats_all (p : Z -> Z -> bool) (v : json) : bool :=
+  match v with
+  | JFloat m e => p m e
+  | JList l => forallb (floats_all p) l
+  | JMap kvs =>
+      (fix go (l : list (string * json)) : bool :=
+         match l with
+         | [] => true
+         | (_, x) :: r => floats_all p x && go r
+         end) kvs
+  | _ => true
+  end.
+
+Lemma floats_all_map p kvs :
+  floats_all p (JMap kvs) = true <-> Forall (fun kv => floats_all p (snd kv) = true) kvs.
+Proof.
+  induction kvs as [|[k x] kvs IH]; simpl; [split; auto|].
+  rewrite Bool.andb_true_iff. simpl in IH. rewrite IH. split.
+  - intros [H1 H2]. now constructor.
+  - intros H. inversion H; subst. now split.
+Qed.
+
+Lemma in_range_floats v : in_range v = true -> floats_all float_ok v = true.
+Proof.
+  induction v as [| b | z | m e | s | l IH | kvs IH] using json_ind'; intros H; try reflexivity.
+  - exact H.
+  - simpl in *. apply forallb_Forall in H. apply forallb_Forall.
+    rewrite Forall_forall in *. auto.
+  - apply in_range_map in H. apply floats_all_map. rewrite Forall_forall in *. auto.
+Qed.
+
 Section RoundTrip.
   Variable fprint : Z -> Z -> text.
-  (* repr(float) of a finite double is a numeral with fraction or exponent ... *)
+  (* the floats for which the two facts about repr(float) are assumed *)
+  Variable fgood : Z -> Z -> bool.
+  (* repr(float) is a numeral with fraction or exponent ... *)
   Hypothesis fprint_numeral :
-    forall m e, float_ok m e = true -> numeral_kind (fprint m e) = Some KFloat.
+    forall m e, fgood m e = true -> numeral_kind (fprint m e) = Some KFloat.
   (* ... that float() reads back as the same double *)
   Hypothesis fprint_parse :
-    forall m e, float_ok m e = true -> fparse (fprint m e) = Some (m, e).
+    forall m e, fgood m e = true -> fparse (fprint m e) = Some (m, e).
 
   Notation encode := (encode fprint).
 
@@ -625,7 +659,7 @@ Section RoundTrip.
 
   (* [lex_encode] *)
   Theorem lex_encode v :
-    in_range v = true -> no_leading_eq v = true -> lex_ok v.
+    floats_all fgood v = true -> no_leading_eq v = true -> lex_ok v.
   Proof.
     induction v as [| b | z | m e | s | l IH | kvs IH] using json_ind'; intros Hr Hq.
     - intros r Hd. now apply lex_null.
@@ -644,7 +678,7 @@ Section RoundTrip.
         with (lcons TLBrack (lex 0 (join_comma (map encode l) ++ "]"%char :: r))).
       rewrite (lex_items l "]"%char TRBrack r Hl) by reflexivity.
       cbn [lapp]. f_equal. rewrite lapp_app. reflexivity.
-    - intros r Hd. apply in_range_map in Hr. apply no_leading_eq_map in Hq.
+    - intros r Hd. apply floats_all_map in Hr. apply no_leading_eq_map in Hq.
       assert (Forall (fun kx => lex_ok (snd kx)) kvs) as Hl.
       { rewrite Forall_forall in *. intros x Hx. apply IH; auto. }
       rewrite encode_map, tokens_map. rewrite <- app_comm_cons, <- app_assoc.
@@ -873,19 +907,20 @@ Section RoundTrip.
   Proof. induction kvs as [|[k x] kvs IH]; [reflexivity|]. simpl. now rewrite IH. Qed.
 
   Theorem eval_ast_of v :
-    wf v = true -> in_range v = true -> eval_ok v.
+    wf v = true -> in_range v = true -> floats_all fgood v = true -> eval_ok v.
   Proof.
-    induction v as [| b | z | m e | s | l IH | kvs IH] using json_ind'; intros Hw Hr; unfold eval_ok.
+    induction v as [| b | z | m e | s | l IH | kvs IH] using json_ind'; intros Hw Hr Hf; unfold eval_ok.
     - reflexivity.
     - now destruct b.
     - cbn [ast_of eval eval_token norm]. rewrite print_Z_value. simpl in Hr. now rewrite Hr.
-    - cbn [ast_of eval eval_token norm]. simpl in Hr. now rewrite (fprint_parse m e Hr).
+    - cbn [ast_of eval eval_token norm]. simpl in Hf. now rewrite (fprint_parse m e Hf).
     - cbn [ast_of eval norm]. now apply eval_scalar_tok.
-    - simpl in Hw, Hr. apply forallb_Forall in Hw. apply forallb_Forall in Hr.
+    - simpl in Hw, Hr, Hf. apply forallb_Forall in Hw. apply forallb_Forall in Hr.
+      apply forallb_Forall in Hf.
       assert (Forall eval_ok l) as Hl.
       { rewrite Forall_forall in *. intros x Hx. apply IH; auto. }
       cbn [ast_of eval norm]. now rewrite (eval_items l Hl).
-    - apply wf_map in Hw as [Hnd Hw]. apply in_range_map in Hr.
+    - apply wf_map in Hw as [Hnd Hw]. apply in_range_map in Hr. apply floats_all_map in Hf.
       assert (Forall (fun kx => eval_ok (snd kx)) kvs) as Hl.
       { rewrite Forall_forall in *. intros x Hx. apply IH; auto. }
       rewrite ast_of_map, norm_map. cbn [eval]. rewrite (eval_entries kvs Hl).
@@ -900,15 +935,15 @@ Section RoundTrip.
   Proof. induction ts as [|t ts IH]; simpl; [reflexivity|now rewrite IH]. Qed.
 
   Theorem roundtrip v :
-    wf v = true -> in_range v = true -> no_leading_eq v = true ->
+    wf v = true -> in_range v = true -> floats_all fgood v = true -> no_leading_eq v = true ->
     eval_lit (encode v) = ROk (norm v).
   Proof.
-    intros Hw Hr Hq. unfold eval_lit.
+    intros Hw Hr Hf Hq. unfold eval_lit.
     rewrite <- (app_nil_r (encode v)).
-    rewrite (lex_encode v Hr Hq [] eq_refl). cbn [lex]. rewrite lapp_ok.
+    rewrite (lex_encode v Hf Hq [] eq_refl). cbn [lex]. rewrite lapp_ok.
     unfold parse. rewrite (parse_tokens_encode v [] PWantVal [] (or_introl eq_refl)).
     unfold after. cbn [reduce fst snd run].
-    exact (eval_ast_of v Hw Hr).
+    exact (eval_ast_of v Hw Hr Hf).
   Qed.
 
   (* a string (as a value that is not a numeral, or as a map key) comes back
@@ -924,10 +959,11 @@ Section RoundTrip.
 
   (* the keys of a map come back unchanged and in order *)
   Theorem keys_roundtrip kvs :
-    wf (JMap kvs) = true -> in_range (JMap kvs) = true -> no_leading_eq (JMap kvs) = true ->
+    wf (JMap kvs) = true -> in_range (JMap kvs) = true -> floats_all fgood (JMap kvs) = true ->
+    no_leading_eq (JMap kvs) = true ->
     exists kvs', eval_lit (encode (JMap kvs)) = ROk (JMap kvs') /\ map fst kvs' = map fst kvs.
   Proof.
-    intros Hw Hr Hq. exists (map norm_entry kvs). split.
+    intros Hw Hr Hf Hq. exists (map norm_entry kvs). split.
     - rewrite <- norm_map. now apply roundtrip.
     - apply norm_entry_keys.
   Qed.
@@ -944,3 +980,254 @@ Proof. unfold norm_str. now intros ->. Qed.
 Lemma norm_str_float s m e :
   numeral_kind (txt s) = Some KFloat -> fparse (txt s) = Some (m, e) -> norm_str s = JFloat m e.
 Proof. unfold norm_str. now intros -> ->. Qed.
+
+(* ------------------------------------------------------------------ *)
+(* instances: all finite doubles / the floats of a table of observed texts *)
+(* ------------------------------------------------------------------ *)
+
+Section FloatOk.
+  Variable fprint : Z -> Z -> text.
+  Hypothesis fprint_numeral :
+    forall m e, float_ok m e = true -> numeral_kind (fprint m e) = Some KFloat.
+  Hypothesis fprint_parse :
+    forall m e, float_ok m e = true -> fparse (fprint m e) = Some (m, e).
+
+  Theorem lex_encode_ok v :
+    in_range v = true -> no_leading_eq v = true ->
+    forall r, delim_start r = true ->
+    lex 0 (encode fprint v ++ r) = lapp (tokens fprint v) (lex 0 r).
+  Proof.
+    intros Hr Hq. exact (lex_encode fprint float_ok fprint_numeral v (in_range_floats v Hr) Hq).
+  Qed.
+
+  Theorem roundtrip_ok v :
+    wf v = true -> in_range v = true -> no_leading_eq v = true ->
+    eval_lit (encode fprint v) = ROk (norm v).
+  Proof.
+    intros Hw Hr Hq.
+    exact (roundtrip fprint float_ok fprint_numeral fprint_parse v Hw Hr (in_range_floats v Hr) Hq).
+  Qed.
+
+  Theorem keys_roundtrip_ok kvs :
+    wf (JMap kvs) = true -> in_range (JMap kvs) = true -> no_leading_eq (JMap kvs) = true ->
+    exists kvs', eval_lit (encode fprint (JMap kvs)) = ROk (JMap kvs') /\ map fst kvs' = map fst kvs.
+  Proof.
+    intros Hw Hr Hq.
+    exact (keys_roundtrip fprint float_ok fprint_numeral fprint_parse kvs Hw Hr
+             (in_range_floats _ Hr) Hq).
+  Qed.
+End FloatOk.
+
+(* with the float texts of a table (what the correspondence check passes to
+   the model): no assumption left, the two facts are decided by ftable_ok *)
+Lemma ftable_ok_entry tb m e :
+  ftable_ok tb = true -> in_table tb m e = true ->
+  numeral_kind (fprint_of tb m e) = Some KFloat /\ fparse (fprint_of tb m e) = Some (m, e).
+Proof.
+  induction tb as [|[[m' e'] s] tb IH]; [discriminate|].
+  unfold ftable_ok, in_table. cbn [forallb existsb fprint_of fst snd].
+  intros [H1 H2]%Bool.andb_true_iff Hin.
+  destruct ((m =? m')%Z && (e =? e')%Z) eqn:E.
+  - apply Bool.andb_true_iff in E as [Em Ee]. apply Z.eqb_eq in Em. apply Z.eqb_eq in Ee. subst.
+    unfold fentry_ok in H1.
+    apply Bool.andb_true_iff in H1 as [H1 _]. apply Bool.andb_true_iff in H1 as [Hk Hp].
+    split.
+    + destruct (numeral_kind (txt s)) as [[|]|]; try discriminate. reflexivity.
+    + destruct (fparse (txt s)) as [[a b]|]; [|discriminate].
+      apply Bool.andb_true_iff in Hp as [Ha Hb]. apply Z.eqb_eq in Ha. apply Z.eqb_eq in Hb.
+      now subst.
+  - simpl in Hin. now apply IH.
+Qed.
+
+Theorem roundtrip_table tb v :
+  ftable_ok tb = true -> floats_all (in_table tb) v = true ->
+  wf v = true -> in_range v = true -> no_leading_eq v = true ->
+  eval_lit (encode (fprint_of tb) v) = ROk (norm v).
+Proof.
+  intros Ht Hf Hw Hr Hq.
+  apply (roundtrip (fprint_of tb) (in_table tb)); auto.
+  - intros m e H. now apply (ftable_ok_entry tb m e Ht H).
+  - intros m e H. now apply (ftable_ok_entry tb m e Ht H).
+Qed.
+
+(* ------------------------------------------------------------------ *)
+(* the numeral matcher is the documented grammar                       *)
+(* ------------------------------------------------------------------ *)
+
+(* one or more ASCII digits *)
+Definition digits1 (t : text) : Prop := t <> [] /\ forallb is_digit t = true.
+
+(* optional fraction: a dot and digits *)
+Inductive frac_spec : text -> Prop :=
+| FNone : frac_spec []
+| FSome fp : digits1 fp -> frac_spec (c_dot :: fp).
+
+(* optional exponent: e or E, optional sign, digits *)
+Inductive exp_spec : text -> Prop :=
+| ENone : exp_spec []
+| ESome e sg ed :
+    is_e e = true -> (sg = [] \/ sg = [c_plus] \/ sg = [c_minus]) -> digits1 ed ->
+    exp_spec (e :: sg ++ ed).
+
+(* digits with optional leading minus, fraction and exponent, nothing else *)
+Inductive numeral_spec : text -> nkind -> Prop :=
+| NSpec sg ip fr ex :
+    (sg = [] \/ sg = [c_minus]) -> digits1 ip -> frac_spec fr -> exp_spec ex ->
+    numeral_spec (sg ++ ip ++ fr ++ ex)
+                 (match fr, ex with [], [] => KInt | _, _ => KFloat end).
+
+Lemma firstn_count_digits t : forallb is_digit (firstn (count_digits t) t) = true.
+Proof.
+  induction t as [|c t IH]; [reflexivity|]. simpl. destruct (is_digit c) eqn:E; [|reflexivity].
+  simpl. now rewrite E, IH.
+Qed.
+
+Lemma count_digits_stop a r :
+  forallb is_digit a = true -> count_digits r = 0 -> count_digits (a ++ r) = List.length a.
+Proof.
+  intros Ha Hr. rewrite count_digits_app by exact Hr. now apply count_digits_all.
+Qed.
+
+Lemma digits1_split t n :
+  count_digits t = S n -> digits1 (firstn (S n) t).
+Proof.
+  intros E. split.
+  - destruct t; [discriminate|]. simpl. discriminate.
+  - rewrite <- E. apply firstn_count_digits.
+Qed.
+
+Lemma scan_exp_spec t L : scan_exp t = Some L -> L = List.length t -> exp_spec t.
+Proof.
+  destruct t as [|c [|s r1]]; unfold scan_exp; cbv beta iota; try discriminate.
+  - destruct (is_e c); discriminate.
+  - destruct (is_e c) eqn:Ee; [|discriminate].
+    destruct (is_sign s) eqn:Es.
+    + destruct (count_digits r1) as [|n] eqn:En; [discriminate|]. intros [= <-] HL.
+      assert (List.length r1 = S n) as Hlen by (simpl in HL; lia).
+      assert (r1 = firstn (S n) r1) as Hr1 by (rewrite <- Hlen; now rewrite firstn_all).
+      apply (ESome c [s] r1 Ee).
+      * unfold is_sign in Es. apply Bool.orb_true_iff in Es as [Es|Es]; apply Ascii.eqb_eq in Es; subst; auto.
+      * rewrite Hr1. now apply digits1_split.
+    + destruct (count_digits (s :: r1)) as [|n] eqn:En; [discriminate|]. intros [= <-] HL.
+      assert (List.length (s :: r1) = S n) as Hlen by (simpl in *; lia).
+      assert (s :: r1 = firstn (S n) (s :: r1)) as Hr1 by (rewrite <- Hlen; now rewrite firstn_all).
+      apply (ESome c [] (s :: r1) Ee); [now left|].
+      rewrite Hr1. now apply digits1_split.
+Qed.
+
+Lemma exp_tail_spec t : exp_tail_ok t = true -> exp_spec t.
+Proof.
+  intros H. destruct (exp_tail_ok_inv t H) as [->|E]; [constructor|].
+  now apply (scan_exp_spec t _ E).
+Qed.
+
+Lemma numeral_unsigned_sound t1 k :
+  numeral_unsigned t1 = Some k ->
+  exists ip fr ex, t1 = ip ++ fr ++ ex /\ digits1 ip /\ frac_spec fr /\ exp_spec ex /\
+                   k = match fr, ex with [], [] => KInt | _, _ => KFloat end.
+Proof.
+  unfold numeral_unsigned. destruct (count_digits t1) as [|n] eqn:En; [discriminate|].
+  pose proof (digits1_split t1 n En) as Hip.
+  pose proof (firstn_skipn (S n) t1) as Hsplit.
+  destruct (skipn (S n) t1) as [|c t3] eqn:E2.
+  - intros [= <-]. exists (firstn (S n) t1), [], []. rewrite <- Hsplit at 1.
+    repeat split; try constructor; try apply Hip.
+  - destruct (Ascii.eqb c c_dot) eqn:Ec.
+    + apply Ascii.eqb_eq in Ec. subst c.
+      destruct (count_digits t3) as [|m] eqn:Em; [discriminate|].
+      destruct (exp_tail_ok (skipn (S m) t3)) eqn:Et; [|discriminate]. intros [= <-].
+      exists (firstn (S n) t1), (c_dot :: firstn (S m) t3), (skipn (S m) t3).
+      split; [|split; [exact Hip|split; [|split]]].
+      * rewrite <- Hsplit at 1. f_equal. rewrite <- app_comm_cons. f_equal. symmetry. apply firstn_skipn.
+      * constructor. now apply digits1_split.
+      * now apply exp_tail_spec.
+      * reflexivity.
+    + destruct (exp_tail_ok (c :: t3)) eqn:Et; [|discriminate]. intros [= <-].
+      exists (firstn (S n) t1), [], (c :: t3).
+      split; [|split; [exact Hip|split; [constructor|split; [now apply exp_tail_spec|reflexivity]]]].
+      now rewrite <- Hsplit at 1.
+Qed.
+
+Theorem numeral_kind_sound t k : numeral_kind t = Some k -> numeral_spec t k.
+Proof.
+  unfold numeral_kind. intros H.
+  destruct t as [|c t]; [discriminate|]. simpl strip_minus in H.
+  destruct (Ascii.eqb c c_minus) eqn:Ec.
+  - apply Ascii.eqb_eq in Ec. subst c.
+    destruct (numeral_unsigned_sound t k H) as (ip & fr & ex & -> & Hip & Hfr & Hex & ->).
+    apply (NSpec [c_minus] ip fr ex); auto.
+  - destruct (numeral_unsigned_sound _ k H) as (ip & fr & ex & E & Hip & Hfr & Hex & ->).
+    rewrite E. apply (NSpec [] ip fr ex); auto.
+Qed.
+
+Lemma is_e_facts e : is_e e = true -> is_digit e = false /\ Ascii.eqb e c_dot = false.
+Proof. bytes e; try discriminate; now split. Qed.
+
+Lemma digit_facts d : is_digit d = true -> is_sign d = false /\ Ascii.eqb d c_minus = false.
+Proof. bytes d; try discriminate; now split. Qed.
+
+Lemma digits1_count ed : digits1 ed -> exists n, count_digits ed = S n /\ List.length ed = S n.
+Proof.
+  intros [Hne Hd]. rewrite (count_digits_all ed Hd). destruct ed; [congruence|]. simpl. eauto.
+Qed.
+
+Lemma exp_spec_ok ex :
+  exp_spec ex ->
+  exp_tail_ok ex = true /\ count_digits ex = 0 /\
+  match ex with c :: _ => Ascii.eqb c c_dot = false | [] => True end.
+Proof.
+  intros [|e sg ed He Hsg Hed]; [repeat split|].
+  destruct (is_e_facts e He) as [Hnd Hdot].
+  destruct (digits1_count ed Hed) as (n & Hc & Hl).
+  split; [|split; [simpl; now rewrite Hnd|exact Hdot]].
+  unfold exp_tail_ok, scan_exp. rewrite He.
+  destruct Hsg as [-> | [-> | ->]].
+  - destruct ed as [|d ed']; [discriminate|]. cbn [List.app].
+    destruct Hed as [_ Hd]. simpl in Hd. apply Bool.andb_true_iff in Hd as [Hd _].
+    destruct (digit_facts d Hd) as [-> _]. rewrite Hc.
+    change (List.length (e :: d :: ed')) with (S (List.length (d :: ed'))). rewrite Hl.
+    apply Nat.eqb_refl.
+  - cbn [List.app]. change (is_sign c_plus) with true. cbv iota. rewrite Hc.
+    change (List.length (e :: c_plus :: ed)) with (S (S (List.length ed))). rewrite Hl.
+    apply Nat.eqb_refl.
+  - cbn [List.app]. change (is_sign c_minus) with true. cbv iota. rewrite Hc.
+    change (List.length (e :: c_minus :: ed)) with (S (S (List.length ed))). rewrite Hl.
+    apply Nat.eqb_refl.
+Qed.
+
+Lemma numeral_unsigned_complete ip fr ex :
+  digits1 ip -> frac_spec fr -> exp_spec ex ->
+  numeral_unsigned (ip ++ fr ++ ex) = Some (match fr, ex with [], [] => KInt | _, _ => KFloat end).
+Proof.
+  intros Hip Hfr Hex.
+  destruct (exp_spec_ok ex Hex) as (Hok & Hex0 & Hexdot).
+  destruct (digits1_count ip Hip) as (n & Hc & Hl). destruct Hip as [_ Hipd].
+  unfold numeral_unsigned.
+  assert (count_digits (fr ++ ex) = 0) as H0.
+  { destruct Hfr; [exact Hex0|reflexivity]. }
+  rewrite (count_digits_stop ip (fr ++ ex) Hipd H0), Hl. rewrite <- Hl, skipn_app_exact.
+  destruct Hfr as [|fp Hfp].
+  - rewrite app_nil_l. destruct ex as [|c ex']; [reflexivity|].
+    rewrite Hexdot. now rewrite Hok.
+  - rewrite <- app_comm_cons. change (Ascii.eqb c_dot c_dot) with true. cbv iota.
+    destruct (digits1_count fp Hfp) as (m & Hcm & Hlm). destruct Hfp as [_ Hfpd].
+    rewrite (count_digits_stop fp ex Hfpd Hex0), Hlm. rewrite <- Hlm, skipn_app_exact.
+    rewrite Hok. now destruct ex.
+Qed.
+
+Theorem numeral_kind_complete t k : numeral_spec t k -> numeral_kind t = Some k.
+Proof.
+  intros [sg ip fr ex Hsg Hip Hfr Hex]. unfold numeral_kind.
+  destruct Hsg as [-> | ->].
+  - rewrite app_nil_l.
+    assert (strip_minus (ip ++ fr ++ ex) = ip ++ fr ++ ex) as ->.
+    { destruct Hip as [Hne Hd]. destruct ip as [|d ip]; [congruence|].
+      simpl in Hd. apply Bool.andb_true_iff in Hd as [Hd _].
+      destruct (digit_facts d Hd) as [_ Hm]. simpl. now rewrite Hm. }
+    now apply numeral_unsigned_complete.
+  - simpl strip_minus. now apply numeral_unsigned_complete.
+Qed.
+
+(* the matcher accepts exactly the documented numerals *)
+Theorem numeral_kind_iff t k : numeral_kind t = Some k <-> numeral_spec t k.
+Proof. split; [apply numeral_kind_sound|apply numeral_kind_complete]. Qed.
